@@ -764,18 +764,24 @@ func LookupTerminfo(name string) (*Terminfo, error) {
 		t.SetBgRGB == "" {
 
 		// Supply vanilla ISO 8613-6:1994 24-bit color sequences.
-		t.SetFgRGB = "\x1b[38;2;%p1%d;%p2%d;%p3%dm"
-		t.SetBgRGB = "\x1b[48;2;%p1%d;%p2%d;%p3%dm"
-		t.SetFgBgRGB = "\x1b[38;2;%p1%d;%p2%d;%p3%d;" +
+		// The entry found may be the registered (shared) one, so amend
+		// a private copy rather than what later lookups will return.
+		nt := *t
+		nt.SetFgRGB = "\x1b[38;2;%p1%d;%p2%d;%p3%dm"
+		nt.SetBgRGB = "\x1b[48;2;%p1%d;%p2%d;%p3%dm"
+		nt.SetFgBgRGB = "\x1b[38;2;%p1%d;%p2%d;%p3%d;" +
 			"48;2;%p4%d;%p5%d;%p6%dm"
+		t = &nt
 	}
 
 	if add256color {
-		t.Colors = 256
-		t.SetFg = "\x1b[%?%p1%{8}%<%t3%p1%d%e%p1%{16}%<%t9%p1%{8}%-%d%e38;5;%p1%d%;m"
-		t.SetBg = "\x1b[%?%p1%{8}%<%t4%p1%d%e%p1%{16}%<%t10%p1%{8}%-%d%e48;5;%p1%d%;m"
-		t.SetFgBg = "\x1b[%?%p1%{8}%<%t3%p1%d%e%p1%{16}%<%t9%p1%{8}%-%d%e38;5;%p1%d%;;%?%p2%{8}%<%t4%p2%d%e%p2%{16}%<%t10%p2%{8}%-%d%e48;5;%p2%d%;m"
-		t.ResetFgBg = "\x1b[39;49m"
+		nt := *t
+		nt.Colors = 256
+		nt.SetFg = "\x1b[%?%p1%{8}%<%t3%p1%d%e%p1%{16}%<%t9%p1%{8}%-%d%e38;5;%p1%d%;m"
+		nt.SetBg = "\x1b[%?%p1%{8}%<%t4%p1%d%e%p1%{16}%<%t10%p1%{8}%-%d%e48;5;%p1%d%;m"
+		nt.SetFgBg = "\x1b[%?%p1%{8}%<%t3%p1%d%e%p1%{16}%<%t9%p1%{8}%-%d%e38;5;%p1%d%;;%?%p2%{8}%<%t4%p2%d%e%p2%{16}%<%t10%p2%{8}%-%d%e48;5;%p2%d%;m"
+		nt.ResetFgBg = "\x1b[39;49m"
+		t = &nt
 	}
 	return t, nil
 }
